@@ -538,6 +538,8 @@ struct CaseOutcome {
   std::string headline;
 };
 
+vf::Run* g_beat_run = nullptr;  // set by the sections; lets the parent beat while a long case runs in its child
+
 // forks; the child builds the world, calls `prep(T, sh)` on its main thread and runs the closure it returns on the requested stack
 CaseOutcome run_case_in_child(const Spec& s, Shared* sh, const std::function<std::function<void()>(TreeIf&, Shared*)>& prep) {
   CaseOutcome co;
@@ -554,7 +556,15 @@ CaseOutcome run_case_in_child(const Spec& s, Shared* sh, const std::function<std
     else if (!run_on_small_stack(stack_bytes[s.stack], body, sh)) sh->thread_failed = 1;
     _exit(0);
   }
-  while (waitpid(p, &co.status, 0) < 0 && errno == EINTR) {}
+  // wait while keeping the shard's heartbeat alive: a 10^5-entry chain built through insert() is quadratic (minutes on a
+  // loaded machine) and the supervisor would otherwise take the silent shard for a hang and attribute a "crash" to the case
+  for (;;) {
+    pid_t w = waitpid(p, &co.status, WNOHANG);
+    if (w == p) break;
+    if (w < 0 && errno != EINTR) break;
+    if (g_beat_run) g_beat_run->beat();
+    usleep(200000);
+  }
   co.headline = sanitizer_headline(errfd);
   if (errfd >= 0) close(errfd);
   return co;
@@ -569,6 +579,7 @@ void run_spec(vf::Run& r, const Spec& s, uint64_t* hw_hist) {
   r.note(std::string("chain ") + world_name[s.world]);
   if (r.wants_desc()) r.desc(s.str());
   Shared* sh = new_shared();
+  g_beat_run = &r;
   CaseOutcome co = run_case_in_child(s, sh, [&](TreeIf& T, Shared* shared) -> std::function<void()> {
     auto life = std::make_shared<Life>(T, s, shared);
     life->prepare();
